@@ -407,6 +407,25 @@ func c10Run(c *Ctx) {
 			}
 		}
 	}
+	// an interactive line of several thousand bytes made of literals, in either script
+	for _, bangla := range []bool{false, true} {
+		var nums []string
+		for i := 0; i < 300; i++ {
+			n := fmt.Sprint(10000 + (i*7919)%89999)
+			if bangla {
+				n = BanglaDigits(n, nil)
+			}
+			nums = append(nums, n)
+		}
+		frac := "0." + strings.Repeat("7155287362", 90)
+		if bangla {
+			frac = BanglaDigits(frac, nil)
+		}
+		lines := []string{Var("t", "["+strings.Join(nums, ", ")+"]") + " " + Print("t[0] + t[299]") + " " + Print(BI("len", "t")), Print(frac + " == " + frac), frac + ";", Print("1 + 1")}
+		if c.Mine() {
+			c10Judge(c, &Case{Gen: "repl-literals", Src: strings.Join(lines, "\n"), X: map[string]string{"final_newline": "1", "all_self": "1"}})
+		}
+	}
 	// interactive mode: a literal means the same on every line, whatever earlier lines did
 	for _, bad := range []string{Print("nope"), "[1][5];", Print("1 / 0"), Print("1" + strings.Repeat("0", 309))} {
 		lines := []string{Print("\u09ea\u09e8"), bad, Print("\u09ea\u09e8"), Print("4\u09e8.\u09eb"), Print("12 == \u09e7\u09e8"), bad, "0.1 + 0.2;", "1000000;"}
